@@ -150,6 +150,12 @@ class Program(object):
                     "ORG after code would leave a gap: the program is assembled as one block from one origin",
                     statement
                 )
+            if address > 0xFFFF and statement.code_pkg.size == 0 and statement.code_pkg.address.is_none() \
+                    and (not statement.label or statement.mnemonic == "EQU"):
+                # The last byte sits at $FFFF. A directive that emits nothing and whose
+                # label (if any) does not name this address (END, NAM, SETDP, EQU) may
+                # still follow it
+                continue
             try:
                 address = statement.set_address(address)
             except ValueTypeError:
